@@ -183,4 +183,13 @@ def plan(tier):
             outside=('a synchronous read while the body is still waiting for a pending future (the reader blocks until another thread acts: needs a second thread; '
                      'here the awaited future is resolved before such a read); resolution of awaited futures on another OS thread; accesses after an exception '
                      'surfaced; misuse (access while the generator is busy, destroying a generator whose body waits on a pending future)')))
+    # a synchronous reader blocked on a body that waits for a pending future which ANOTHER THREAD completes (rmode 3, next()/value() style)
+    ot = [[3, 3, Y, AP, Y, 3, S_NEXT, S_NEXT, S_NEXT], [3, 4, Y, AP, Y, RET, 4, S_NEXT, S_NEXT, S_NEXT, S_NEXT], [3, 3, AP, Y, Y, 3, S_NEXT, S_NEXT, S_NEXT],
+          [3, 5, Y, Y, AP, YRV, RET, 5, S_NEXT, S_ITER, S_NEXT, S_NEXT, S_NEXT], [3, 4, Y, AP, TH, Y, 2, S_NEXT, S_NEXT], [3, 4, AR, Y, AP, Y, 3, S_NEXT, S_FUT_HV, S_NEXT],
+          [3, 5, Y, AP, Y, AP, Y, 5, S_NEXT, S_NEXT, S_NEXT, S_NEXT, S_NEXT], [3, 3, Y, AP, RET, 3, S_NEXT, S_NEXT, S_NEXT]]
+    units.append(dict(engine='e1', name='sync_other_thread', tu='C13.cpp', entry='h_gen', defines=[], unwind=10, vectors=ot, concrete=[(ot[0], [5, 6, 7]), (ot[2], [1, 2, 3])],
+                      space='generator<int>: scripts in which a synchronous next() runs into a pending awaited future that another thread completes while the reader is blocked in the wait '
+                            '(the wait hook of the runtime model runs the resolver exactly when the reader would otherwise block forever): %s' % ot,
+                      data='payloads symbolic', bounds='8 hand-written script / access combinations, one pending await per blocking read',
+                      outside='two pending awaits inside one blocking read; the iterator styles under this timing'))
     return units
